@@ -333,16 +333,47 @@ def spec_check(case, obs):
     return bad
 
 
+def in_scope(case):
+    """the guards of the property's quantifier, re-checked on shrunk histories: no assignment is added
+    while in force; conditions of a ConditionalDomainManager are registered for domains that have a manager;
+    no clear() on conditional managers (see chk.assumptions)"""
+    kind = case["kind"]
+    domained = kind in ("dm", "cdm", "edm")
+    present, live = {}, set()
+    for op in case["ops"]:
+        c = op[0]
+        if c in (ADD, DEL, ROLES, USERS):
+            doms = op[-1]
+            if domained and len(doms) > 1:
+                continue
+            key = tuple(doms) if domained else None
+            cur = present.setdefault(key, set())
+            if c == ADD:
+                if (op[1], op[2]) in cur:
+                    return False
+                cur.add((op[1], op[2]))
+            elif c == DEL:
+                cur.discard((op[1], op[2]))
+            live.add(key)
+        elif c == CLEAR:
+            if kind in ("crm", "cdm"):
+                return False
+            present, live = {}, set()
+        elif c in (COND, PARAMS) and kind == "cdm":
+            if ((op[3],) not in live) and not (op[3] == 0 and () in live):
+                return False
+    return True
+
+
 def shrink(case, idx):
-    """drop earlier calls while the call that failed still fails"""
+    """drop earlier calls while the call that failed still fails (and the history stays in scope)"""
     ops = case["ops"][:idx + 1]
     cur = dict(case, ops=ops)
     i = len(ops) - 2
     while i >= 0:
         trial = dict(cur, ops=cur["ops"][:i] + cur["ops"][i + 1:])
         try:
-            o = run_impl(trial)
-            b = spec_check(trial, o)
+            b = spec_check(trial, run_impl(trial)) if in_scope(trial) else []
         except Exception:  # noqa
             b = []
         if b and b[-1][0] == len(trial["ops"]) - 1:
@@ -454,10 +485,10 @@ def gen_random(rng, count, kinds, double_adds=False):
             elif x < 0.95 and kind[0] != "e" and (double_adds or not cond):
                 ops.append([CLEAR])
                 present, live = {}, set()
-            elif cond and cur and len(doms) <= 1:
-                if kind == "cdm" and key not in live:
-                    continue
-                u, r = rng.choice(cur) if rng.random() < 0.8 else (a, b)
+            elif cond and (cur or double_adds) and len(doms) <= 1:
+                if kind == "cdm" and key not in live and not double_adds:
+                    continue               # (the model-tie-only stratum also registers for manager-less domains)
+                u, r = rng.choice(cur) if (cur and rng.random() < 0.8) else (a, b)
                 d = (doms[0] if doms else 0) if kind == "cdm" else rng.choice([0, 7])
                 if rng.random() < 0.6:
                     nf += 1
